@@ -516,4 +516,8 @@ example : request (.response 404 .errorObject) = .apiError 404 ∧
     request (.response 200 .object) = .returned .object ∧
     request (.response 204 .notJson) = .returned .none := by decide
 
+/-- a 2xx response whose JSON body is not an object (a number, a string, a list) is returned as it is:
+    the model's `httpOutcome` only inspects objects for an "error" member, and so does the source (regenerated) -/
+theorem error_guard_requires_object : Gen.Mgmt.errorGuardRequiresObject = true := by decide
+
 end Amqp.C19
